@@ -166,6 +166,64 @@ int main() {
                 if (fs::is_directory(p) && fs::path(during) != fs::path(p)) oracle_fail("C18: DirectoryVisitor did not enter the directory");
                 break;
             }
+            case 60: case 61: case 62: {
+                // the same queries on the path spelled with a trailing separator
+                std::string p = pathOf(l, 1, ok); if (!ok) break;
+                p += "/";
+                Path pp(p);
+                if (l[0] == 60) {
+                    bool e = pp.exists(), f = pp.isFile(), d = pp.isDirectory();
+                    out = {e ? 1 : 0, f ? 1 : 0, d ? 1 : 0};
+                    if (e != fs::exists(p) || f != fs::is_regular_file(p) || d != fs::is_directory(p))
+                        oracle_fail("C18: exists/isFile/isDirectory disagree with the filesystem for " + p);
+                } else if (l[0] == 61) {
+                    try {
+                        size_t sz = pp.size();
+                        out.push_back((int64_t) sz);
+                        uintmax_t expect = 0;
+                        if (fs::is_directory(p)) { for (auto &e : fs::recursive_directory_iterator(p)) if (e.is_regular_file()) expect += e.file_size(); }
+                        else oracle_fail("C18: size() returned for a path that does not name anything (a file name followed by a separator)");
+                        if (fs::is_directory(p) && expect != sz) oracle_fail("C18: size() = " + std::to_string(sz) + " but the regular files beneath " + p + " total " + std::to_string(expect));
+                    } catch (const tulz::Exception &e) {
+                        out.push_back(e.type == Path::NotFound ? -12 : e.type == Path::NotDirectory ? -11 : -10);
+                        if (fs::exists(p)) oracle_fail("C18: size() threw for an existing path");
+                    }
+                } else {
+                    try {
+                        auto children = pp.listChildren();
+                        std::vector<int64_t> ids;
+                        for (auto &ch : children) { int64_t id = -99; for (int k = 0; k < NNAMES; ++k) if (ch.toString() == NAMES[k]) id = k; ids.push_back(id); }
+                        std::sort(ids.begin(), ids.end());
+                        out.push_back((int64_t) ids.size()); out.insert(out.end(), ids.begin(), ids.end());
+                        if (!fs::is_directory(p)) oracle_fail("C18: listChildren returned for something that is not a directory");
+                    } catch (const tulz::Exception &e) {
+                        out.push_back(e.type == Path::NotFound ? -12 : e.type == Path::NotDirectory ? -11 : -10);
+                        if (fs::is_directory(p)) oracle_fail("C18: listChildren threw for a directory");
+                    }
+                }
+                break;
+            }
+            case 55: {
+                // one visitor object used twice
+                if (l.size() < 2 || l[1] < 0 || (size_t) l[1] + 2 > l.size()) { ok = false; break; }
+                Line lp(l.begin() + 2, l.begin() + 2 + l[1]), lq(l.begin() + 2 + l[1], l.end());
+                std::string p = pathOf(lp, 0, ok), q = pathOf(lq, 0, ok); if (!ok) break;
+                std::string before = fs::current_path().string(), afterFirst, elsewhere, afterSecond;
+                {
+                    tulz::DirectoryVisitor v;
+                    v.set(Path(p)); v.visit(); v.restore();
+                    afterFirst = fs::current_path().string();
+                    if (fs::is_directory(q)) fs::current_path(q);
+                    elsewhere = fs::current_path().string();
+                    v.set(Path(p)); v.visit();
+                }
+                afterSecond = fs::current_path().string();
+                fs::current_path(before);
+                out = {afterFirst == before ? 1 : 0, afterSecond == elsewhere ? 1 : 0};
+                if (afterFirst != before) oracle_fail("C18: DirectoryVisitor::restore() did not restore the working directory");
+                if (afterSecond != elsewhere) oracle_fail("C18: a DirectoryVisitor used a second time did not restore the directory it found when it was destroyed");
+                break;
+            }
             case 54: {
                 // nested visitors: 54 n p... q... : enter p (n components), inside it visit q and leave, then leave p
                 if (l.size() < 2 || l[1] < 0 || (size_t) l[1] + 2 > l.size()) { ok = false; break; }
